@@ -373,6 +373,8 @@ func (r *Run) cacheWriteThrough(obl, pkgPath, handleText, cacheConst, fillerPref
 }
 
 func c43Extra(r *Run) error {
+	r.boundedGoTest("C43-histories", "after a history of grant / revoke requests the user can read the table exactly when the grants the server accepted say so (model: elements in the handler's sorted order, trimmed, a leading '-' revokes)",
+		"18 histories of one to two requests with ordinary and odd spellings (leading blank or tab before the sign, blank after it, trailing blank, upper case, doubled signs, grant and revoke of one permission in one request, another user, another table), real handler, real restricted SQLite DSN")
 	r.cacheWriteThrough("C43/dsn-cache-write-through[dsns]", modInternal+"dsns", "dsnHandle", "caches.DSNCache", "Read",
 		"every function of the DSN service that writes the dsns table keeps the cached DSN record honest (so ReadDSN, which the row handlers and Authorized consult, cannot keep answering with the record as it was)")
 	return nil
@@ -436,4 +438,77 @@ func c25Extra(r *Run) error {
 	r.cacheWriteThrough("C25/user-cache-write-through[auth]", modInternal+"server/auth", "userHandle", "caches.AuthCache", "Read",
 		"every function of the database user store that writes the credentials table keeps the cached user record honest (so ReadUser, which ValidatePassword consults, cannot keep answering with the credential as it was)")
 	return nil
+}
+
+// reaches: is there a path of direct calls, function literals and resolved dynamic calls from the function named
+// from to the one named to (full names)?
+func (r *Run) reaches(from, to string) (bool, string) {
+	f := r.Eng.frame
+	var start *fnode
+	for _, n := range f.allNodes() {
+		if n.fn != nil && n.fn.FullName() == from {
+			start = n
+		}
+	}
+	if start == nil {
+		return false, ""
+	}
+	type item struct {
+		n    *fnode
+		path string
+	}
+	seen := map[*fnode]bool{start: true}
+	queue := []item{{start, shortFuncName(from)}}
+	for len(queue) > 0 {
+		c := queue[0]
+		queue = queue[1:]
+		if c.n.fn != nil && c.n.fn.FullName() == to && c.n != start {
+			return true, c.path
+		}
+		push := func(t *fnode) {
+			if t != nil && !seen[t] {
+				seen[t] = true
+				name := "(literal)"
+				if t.fn != nil {
+					name = shortFuncName(t.fn.FullName())
+				}
+				queue = append(queue, item{t, c.path + " -> " + name})
+			}
+		}
+		for _, cal := range c.n.callees {
+			push(f.nodes[cal])
+		}
+		for _, l := range c.n.lits {
+			push(l)
+		}
+		for _, t := range c.n.dynTargets {
+			push(t)
+		}
+	}
+	return false, ""
+}
+
+// c44DecryptCensus: the REST handlers for DSNs never reach the function that decrypts a stored DSN password (the
+// connection string it is spliced into is for the database driver, not for a response).
+func c44DecryptCensus(r *Run) {
+	hp := modInternal + "server/dsns"
+	target := modInternal + "dsns.decrypt"
+	pk := r.Prog.Pkgs[hp]
+	if pk == nil || pk.TypesInfo == nil {
+		r.table("C44/handlers-never-decrypt[server/dsns]", false, "package server/dsns loaded", "not loaded")
+		return
+	}
+	var bad []string
+	n := 0
+	for full, src := range r.Prog.FuncDecls {
+		if src.Pkg.PkgPath != hp || strings.HasSuffix(r.Prog.Fset.Position(src.Decl.Pos()).Filename, "_test.go") {
+			continue
+		}
+		n++
+		if ok, path := r.reaches(full, target); ok {
+			bad = append(bad, path)
+		}
+	}
+	sort.Strings(bad)
+	r.table("C44/handlers-never-decrypt[server/dsns]", len(bad) == 0 && n > 0, "no function of the DSN REST handlers reaches dsns.decrypt, the one function that turns a stored DSN password back into text", fmt.Sprintf("%d functions; %s", n, strings.Join(bad, "; ")))
 }
